@@ -88,6 +88,13 @@ theorem exec_expr_eq (c : Ctx) (p : Path) :
       | some (n :: rest) => (Except.ok (n :: rest) : M (List N))
       | _ => .error (.panic .nilRoot)) := rfl
 
+/-- `exec` on any token list -/
+theorem exec_eq (c : Ctx) (toks : List Tok) :
+    exec c toks = (execFrom c ⟨[], [], none, 0, 0⟩ toks >>= fun st =>
+      match st.root with
+      | some (n :: rest) => (Except.ok (n :: rest) : M (List N))
+      | _ => .error (.panic .nilRoot)) := rfl
+
 /-- paths without filters: the outcome of `parseModel` on the printed path -/
 theorem parse_print_B (ss : List Step) (fns : List Fn)
     (hwf : pathWf (.mk .root ss fns) = true) (hnf : noFilterSteps ss = true)
